@@ -201,7 +201,9 @@ func suiteTerm(t *testing.T, cfg cfgT) {
 	defer out.close(cfg)
 	r := newRng(cfg.seed)
 	cases := 0
-	for cases < cfg.n {
+	termHung = false
+	termCorpus(t, out, &cases)
+	for cases < cfg.n && !termHung {
 		hr := r.fork()
 		nss := genConfig(hr, hr.chance(1, 2))
 		gdepth := 2 + hr.intn(7)
@@ -216,72 +218,86 @@ func suiteTerm(t *testing.T, cfg cfgT) {
 		time.Sleep(100 * time.Millisecond)
 		base := runtime.NumGoroutine()
 		for i := 0; i < 6 && cases < cfg.n; i++ {
-			q := egQuery(hr, nss)
-			p0 := &storagePlan{}
-			obs0, lat0, _ := ee.runPlan(q, 0, p0, 20*time.Second)
-			n := p0.count()
-			emit := func(mode string, k int, obs string, lat time.Duration, prompt bool) {
-				g, ok := settleGoroutines(base)
-				ret, pr, gr := 1, 1, 1
-				if obs == "hang" {
-					ret = 0
-				}
-				if !prompt {
-					pr = 0
-				}
-				if !ok {
-					gr = 0
-				}
-				out.emit(fmt.Sprintf("eterm %s %d %s %d", fmtTuple(q), 0, mode, k),
-					fmt.Sprintf("returned=%d prompt=%d goroutines=%d calls=%d result=%s leftover=%d", ret, pr, gr, n, strings.ReplaceAll(obs, " ", "/"), g-base))
-				out.stat("term." + mode + "." + strings.Fields(obs)[0])
-				cases++
-			}
-			emit("plain", 0, obs0, lat0, true)
-			if obs0 == "maperr" {
-				continue
-			}
-			// cancellation: before the first storage operation, between operations, after completion
-			ks := []int{1, 2, 3, n / 2, n}
-			seen := map[int]bool{}
-			for _, k := range ks {
-				if k < 1 || k > n || seen[k] {
-					continue
-				}
-				seen[k] = true
-				p := &storagePlan{cancelAt: k}
-				obs, lat, _ := ee.runPlan(q, 0, p, 20*time.Second)
-				emit("cancel", k, obs, lat, lat < lat0+2*time.Second)
-				pf := &storagePlan{failAt: k, persistent: hr.chance(1, 2)}
-				obsf, latf, _ := ee.runPlan(q, 0, pf, 20*time.Second)
-				emit("fault", k, obsf, latf, true)
-			}
-			// already cancelled context
-			{
-				ctx, cancel := context.WithCancel(context.Background())
-				cancel()
-				its, err := ee.e.reg.ReadOnlyMapper().FromTuple(context.Background(), q)
-				if err == nil {
-					start := time.Now()
-					done := make(chan string, 1)
-					go func() {
-						res := ee.e.reg.PermissionEngine().CheckRelationTuple(ctx, its[0], 0)
-						er := 0
-						if res.Err != nil {
-							er = 1
-						}
-						done <- fmt.Sprintf("%s %d", memTok(res.Membership), er)
-					}()
-					select {
-					case o := <-done:
-						emit("precancelled", 0, o, time.Since(start), time.Since(start) < 2*time.Second)
-					case <-time.After(10 * time.Second):
-						emit("precancelled", 0, "hang", 10*time.Second, false)
-					}
-				}
-			}
+			termOne(ee, out, egQuery(hr, nss), 0, base, hr.chance(1, 2), &cases)
 		}
 		ee.e.close()
+	}
+}
+
+var termHung bool
+
+// termOne: one check, plain, cancelled at several storage operations, with a storage failure at the same positions,
+// and with an already cancelled context
+func termOne(ee *engineEnv, out *sink, q *ketoapi.RelationTuple, rd int, base int, persistent bool, casesp *int) {
+	cases := *casesp
+	defer func() { *casesp = cases }()
+	if termHung {
+		return // a check that does not return was already found: that is the violation, further runs only cost time
+	}
+	p0 := &storagePlan{}
+	obs0, lat0, _ := ee.runPlan(q, rd, p0, 20*time.Second)
+	n := p0.count()
+	emit := func(mode string, k int, obs string, lat time.Duration, prompt bool) {
+		g, ok := settleGoroutines(base)
+		ret, pr, gr := 1, 1, 1
+		if obs == "hang" {
+			ret = 0
+			termHung = true
+		}
+		if !prompt {
+			pr = 0
+		}
+		if !ok {
+			gr = 0
+		}
+		out.emit(fmt.Sprintf("eterm %s %d %s %d", fmtTuple(q), rd, mode, k),
+			fmt.Sprintf("returned=%d prompt=%d goroutines=%d calls=%d result=%s leftover=%d", ret, pr, gr, n, strings.ReplaceAll(obs, " ", "/"), g-base))
+		out.stat("term." + mode + "." + strings.Fields(obs)[0])
+		out.w.Flush()
+		cases++
+	}
+	emit("plain", 0, obs0, lat0, true)
+	if obs0 == "maperr" || termHung {
+		return
+	}
+	// cancellation: before the first storage operation, between operations, after completion
+	ks := []int{1, 2, 3, n / 2, n}
+	seen := map[int]bool{}
+	for _, k := range ks {
+		if k < 1 || k > n || seen[k] {
+			continue
+		}
+		seen[k] = true
+		p := &storagePlan{cancelAt: k}
+		obs, lat, _ := ee.runPlan(q, rd, p, 20*time.Second)
+		emit("cancel", k, obs, lat, lat < lat0+2*time.Second)
+		pf := &storagePlan{failAt: k, persistent: persistent}
+		obsf, latf, _ := ee.runPlan(q, rd, pf, 20*time.Second)
+		emit("fault", k, obsf, latf, true)
+	}
+	// already cancelled context
+	{
+		ctx, cancel := context.WithCancel(context.Background())
+		cancel()
+		its, err := ee.e.reg.ReadOnlyMapper().FromTuple(context.Background(), q)
+		if err == nil {
+			start := time.Now()
+			done := make(chan string, 1)
+			go func() {
+				res := ee.e.reg.PermissionEngine().CheckRelationTuple(ctx, its[0], rd)
+				er := 0
+				if res.Err != nil {
+					er = 1
+				}
+				done <- fmt.Sprintf("%s %d", memTok(res.Membership), er)
+			}()
+			select {
+			case o := <-done:
+				emit("precancelled", 0, o, time.Since(start), time.Since(start) < 2*time.Second)
+			case <-time.After(10 * time.Second):
+				emit("precancelled", 0, "hang", 10*time.Second, false)
+			}
+		}
 	}
 }
 
@@ -357,4 +373,55 @@ func faultCorpus(t *testing.T, out *sink) int {
 		ee.e.close()
 	}
 	return n
+}
+
+// termCorpus: recursive permissions over CYCLIC hierarchies (the random generator keeps hierarchy relations acyclic
+// because the engine does not protect tuple-to-subject-set recursion by its visited set: only the depth budget ends
+// it).  view = owner || parents.traverse(p => p.permits.view); a 2-cycle, a 3-cycle with a tail, a self loop, and a
+// fan-out-2 cycle; negative and positive checks at request depths 0 (global 5), 3, 5 and 8.
+func termCorpus(t *testing.T, out *sink, cases *int) {
+	or := func(cs ...ast.Child) *ast.SubjectSetRewrite { return &ast.SubjectSetRewrite{Children: cs} }
+	and := func(cs ...ast.Child) *ast.SubjectSetRewrite {
+		return &ast.SubjectSetRewrite{Operation: ast.OperatorAnd, Children: cs}
+	}
+	nss := []*namespace.Namespace{{Name: "U"}, {Name: "F", Relations: []ast.Relation{
+		{Name: "owner", Types: []ast.RelationType{{Namespace: "U"}}},
+		{Name: "parents", Types: []ast.RelationType{{Namespace: "F"}}},
+		{Name: "view", SubjectSetRewrite: or(&ast.ComputedSubjectSet{Relation: "owner"}, &ast.TupleToSubjectSet{Relation: "parents", ComputedSubjectSetRelation: "view"})},
+		{Name: "strict", SubjectSetRewrite: and(&ast.TupleToSubjectSet{Relation: "parents", ComputedSubjectSetRelation: "view"}, &ast.TupleToSubjectSet{Relation: "parents", ComputedSubjectSetRelation: "strict"})},
+	}}}
+	tuples := []string{"F:a#parents@F:b#", "F:b#parents@F:a#", "F:a#owner@alice",
+		"F:c#parents@F:d#", "F:d#parents@F:e#", "F:e#parents@F:c#", "F:e#parents@F:t#", "F:t#owner@bob",
+		"F:s#parents@F:s#",
+		"F:x#parents@F:y#", "F:x#parents@F:z#", "F:y#parents@F:x#", "F:y#parents@F:z#", "F:z#parents@F:x#", "F:z#parents@F:y#"}
+	checks := []string{"F:a#view@nobody", "F:b#view@alice", "F:c#view@bob", "F:c#view@nobody", "F:s#view@nobody", "F:x#view@nobody", "F:x#strict@nobody", "F:a#strict@alice"}
+	for _, opl := range []bool{false, true} {
+		ee := newEngineEnv(t, nss, false, opl, 5, 100)
+		for _, o := range []string{"a", "b", "c", "d", "e", "t", "s", "x", "y", "z", "alice", "bob", "nobody"} {
+			ee.pool.add(o)
+		}
+		ee.header(out)
+		var ts []*ketoapi.RelationTuple
+		for _, x := range tuples {
+			tu, err := (&ketoapi.RelationTuple{}).FromString(x)
+			if err != nil {
+				t.Fatal(err)
+			}
+			ts = append(ts, tu)
+		}
+		ee.insert(t, ts)
+		ee.table(out)
+		wq, _ := (&ketoapi.RelationTuple{}).FromString("F:t#view@bob")
+		ee.runPlan(wq, 0, &storagePlan{}, 20*time.Second)
+		time.Sleep(100 * time.Millisecond)
+		base := runtime.NumGoroutine()
+		for _, c := range checks {
+			q, _ := (&ketoapi.RelationTuple{}).FromString(c)
+			for _, rd := range []int{0, 3, 8} {
+				termOne(ee, out, q, rd, base, false, cases)
+			}
+		}
+		ee.e.close()
+	}
+	out.stat("corpus")
 }
